@@ -275,6 +275,207 @@ def run_kind(ctx, tie, scale):
 
 
 # ======================================================================================
+# SMF (Standard MIDI File); the generator is written from the SMF 1.0 specification
+
+def smf_varint(n):
+    """variable-length quantity: 7 bits per byte, most significant first, bit 7 set on all but the last"""
+    out = [n & 0x7F]
+    n >>= 7
+    while n:
+        out.append(0x80 | (n & 0x7F))
+        n >>= 7
+    return bytes(reversed(out))
+
+
+def smf_chunk(ident, data):
+    return ident + struct.pack(">L", len(data)) + data
+
+
+def smf_event(rng, ev, state):
+    """one MTrk event `(delta, kind, …)` as bytes; `state` carries the running status"""
+    delta, kind = ev[0], ev[1]
+    out = smf_varint(delta)
+    if kind == "midi":
+        status, data = ev[2], ev[3]
+        if ev[4] and state.get("status") == status:          # running status: the status byte is left out
+            out += bytes(data)
+        else:
+            out += bytes([status]) + bytes(data)
+        state["status"] = status
+    elif kind == "tempo":
+        out += b"\xff\x51\x03" + struct.pack(">L", ev[2])[1:]
+    elif kind == "meta":
+        out += b"\xff" + bytes([ev[2]]) + smf_varint(len(ev[3])) + ev[3]
+    elif kind == "sysex":
+        out += bytes([ev[2]]) + smf_varint(len(ev[3])) + ev[3]
+    return out
+
+
+def smf_track(rng, events):
+    state = {}
+    return smf_chunk(b"MTrk", b"".join(smf_event(rng, e, state) for e in events))
+
+
+def smf_random_events(rng, n, tempo_rate=0.15, zero_nonmidi=False):
+    evs = []
+    for _ in range(n):
+        delta = rng.choice([0, 0, 1, 10, 96, 127, 128, 480, 16383, 16384, 2 ** 21 - 1, 2 ** 28 - 1])
+        r = rng.random()
+        if r < tempo_rate:
+            evs.append((0 if zero_nonmidi else delta, "tempo", rng.choice([1, 250000, 500000, 500001, 1000000, 2 ** 24 - 1])))
+        elif r < tempo_rate + 0.1:
+            evs.append((0 if zero_nonmidi else delta, "meta", rng.choice([0x01, 0x03, 0x2F, 0x58, 0x59, 0x7F]), rbytes(rng, rng.choice([0, 1, 4, 130]))))
+        elif r < tempo_rate + 0.15:
+            evs.append((0 if zero_nonmidi else delta, "sysex", rng.choice([0xF0, 0xF7]), rbytes(rng, rng.choice([0, 1, 5, 200]))))
+        else:
+            hi = rng.choice([0x8, 0x9, 0xA, 0xB, 0xC, 0xD, 0xE])
+            status = (hi << 4) | rng.randrange(16)
+            nd = 1 if hi in (0xC, 0xD) else 2
+            evs.append((delta, "midi", status, [rng.randrange(128) for _ in range(nd)], rng.random() < 0.5))
+    return evs
+
+
+@register
+class SmfTie(KindTie):
+    name = "SMF"
+    hm_kinds = ()
+
+    def real(self, data):
+        from mutagen.smf import SMFInfo
+        return dict(length=SMFInfo(io.BytesIO(data)).length)
+
+    def public(self, data):
+        from mutagen.smf import SMF
+        return dict(length=SMF(io.BytesIO(data)).info.length)
+
+    def lattice(self, rng, scale):
+        return []
+
+    def files(self, rng, scale):
+        out = []
+        for i in range(120 * scale):
+            fmt = rng.choice([0, 1, 1, 1, 2])
+            ntr = 1 if fmt == 0 else rng.choice([1, 2, 3, 5])
+            div = rng.choice([1, 24, 96, 480, 960, 32767, 0, 0x8000 | 0x6728, 0xE250])
+            if rng.random() < 0.85:
+                div = rng.choice([1, 24, 96, 480, 960, 32767])
+                fmt = rng.choice([0, 1, 1])
+            tracks = [smf_track(rng, smf_random_events(rng, rng.choice([0, 1, 3, 10, 40]),
+                                                        tempo_rate=rng.choice([0, 0.15, 0.5]),
+                                                        zero_nonmidi=rng.random() < 0.3)) for _ in range(ntr)]
+            declared = ntr if rng.random() < 0.8 else rng.choice([0, ntr - 1, ntr + 1, ntr + 3])
+            body = b"".join(tracks)
+            if rng.random() < 0.15:
+                body = smf_chunk(b"XFIH", rbytes(rng, 5)) + body           # an alien chunk before the tracks
+            data = smf_chunk(b"MThd", struct.pack(">HHH", fmt, max(0, declared), div)) + body
+            out.append(("gen:%d" % i, data))
+            if rng.random() < 0.3:
+                out.append(("gen-cut:%d" % i, data[:rng.randrange(len(data) + 1)]))
+            if rng.random() < 0.3:
+                b = bytearray(data)
+                for _ in range(rng.choice([1, 2, 5])):
+                    b[rng.randrange(len(b))] = rng.choice([0, 0x7F, 0x80, 0xF0, 0xF7, 0xFF, 0x51, rng.getrandbits(8)])
+                out.append(("gen-flip:%d" % i, bytes(b)))
+        # hand-made: running status after a meta event, status 0 running, F1..F6 / F8..FE, long varints, 6-byte-plus headers
+        tr = lambda b: smf_chunk(b"MTrk", b)
+        hd = lambda f, n, d, extra=b"": smf_chunk(b"MThd", struct.pack(">HHH", f, n, d) + extra)
+        out += [
+            ("hand:running-after-meta", hd(0, 1, 96) + tr(b"\x00\x90\x3c\x40\x10\xff\x01\x01x\x10\x3c\x00")),
+            ("hand:running-without-status", hd(0, 1, 96) + tr(b"\x05\x3c\x40\x05\x3c\x00")),
+            ("hand:running-prog", hd(0, 1, 96) + tr(b"\x00\xc0\x05\x60\x06\x60\x07")),
+            ("hand:invalid-f1", hd(0, 1, 96) + tr(b"\x00\xf1\x00")),
+            ("hand:invalid-fe", hd(0, 1, 96) + tr(b"\x00\xfe")),
+            ("hand:varint-5", hd(0, 1, 96) + tr(b"\x81\x80\x80\x80\x00\x90\x3c\x40")),
+            ("hand:varint-max", hd(0, 1, 96) + tr(b"\xff\xff\xff\x7f\x90\x3c\x40")),
+            ("hand:varint-zeros", hd(0, 1, 96) + tr(b"\x80\x80\x80\x80\x80\x80\x00\x90\x3c\x40")),
+            ("hand:varint-open", hd(0, 1, 96) + tr(b"\x00\x90\x3c\x40\x80\x80")),
+            ("hand:tempo-len2", hd(0, 1, 96) + tr(b"\x00\xff\x51\x02\x07\xa1")),
+            ("hand:tempo-len4", hd(0, 1, 96) + tr(b"\x00\xff\x51\x04\x07\xa1\x20\x00")),
+            ("hand:tempo-cut", hd(0, 1, 96) + tr(b"\x00\xff\x51\x03\x07\xa1")),
+            ("hand:header-7", hd(0, 1, 96, b"\x00") + tr(b"\x00\x90\x3c\x40")),
+            ("hand:no-tracks", hd(1, 0, 96)),
+            ("hand:only-alien", hd(1, 1, 96) + smf_chunk(b"XFIH", b"abc")),
+            ("hand:alien-takes-slot", hd(1, 1, 96) + smf_chunk(b"XFIH", b"abc") + tr(b"\x60\x90\x3c\x40")),
+            ("hand:empty-track", hd(1, 1, 96) + tr(b"")),
+            ("hand:tempo-track-later", hd(1, 3, 96) + tr(b"\x60\x90\x3c\x40") + tr(b"\x00\xff\x51\x03\x0f\x42\x40") + tr(b"\x60\x90\x3c\x40")),
+            ("hand:tempo-same-tick", hd(0, 1, 96) + tr(b"\x00\xff\x51\x03\x0f\x42\x40\x00\xff\x51\x03\x07\xa1\x20\x60\x90\x3c\x40")),
+            ("hand:tempo-mid", hd(0, 1, 480) + tr(b"\x83\x60\x90\x3c\x40\x00\xff\x51\x03\x0f\x42\x40\x83\x60\x80\x3c\x00")),
+            ("hand:eot-delta", hd(0, 1, 480) + tr(b"\x00\x90\x3c\x40\x83\x60\xff\x2f\x00")),
+            ("hand:format2", hd(2, 1, 96) + tr(b"\x60\x90\x3c\x40")),
+            ("hand:smpte", hd(0, 1, 0xE728) + tr(b"\x60\x90\x3c\x40")),
+            ("hand:div0", hd(0, 1, 0) + tr(b"\x60\x90\x3c\x40")),
+            ("hand:empty", b""), ("hand:riff", b"RIFF\x00\x00\x00\x00RMIDdata"),
+        ]
+        for fn in ("sample.mid",):
+            p = os.path.join("/repo/tests/data", fn)
+            if os.path.exists(p):
+                raw = open(p, "rb").read()
+                out.append(("sample:" + fn, raw))
+                for _ in range(10 * scale):
+                    out.append(("sample-cut:" + fn, raw[:rng.randrange(len(raw))]))
+                    b = bytearray(raw); b[rng.randrange(len(b))] = rng.getrandbits(8)
+                    out.append(("sample-flip:" + fn, bytes(b)))
+        return out
+
+    def damaged(self, rng, goods, scale):
+        return self.files(rng, scale)
+
+
+@register
+class SmfSpecTie(SmfTie):
+    """the specification side: Lean `File.build` == the Python generator's bytes; where `OK` and `Aligned` hold the real
+    class reports `File.expected`; elsewhere only the code-side model is compared"""
+    name = "SMFspec"
+
+    def damaged(self, rng, goods, scale):
+        return []
+
+    @staticmethod
+    def ev_str(ev):
+        d, k = ev[0], ev[1]
+        if k == "midi":
+            return "%d:m:%d:%d:%s:%d" % (d, ev[2], ev[3][0], ev[3][1] if len(ev[3]) > 1 else "-", 1 if ev[4] else 0)
+        if k == "tempo":
+            return "%d:t:%d" % (d, ev[2])
+        if k == "meta":
+            return "%d:x:%d:%s" % (d, ev[2], ev[3].hex() or "-")
+        return "%d:s:%d:%s" % (d, ev[2], ev[3].hex() or "-")
+
+    def fix_running(self, evs):
+        """running status only right behind a channel message with the same status (the specification's rule)"""
+        out, prev = [], None
+        for ev in evs:
+            if ev[1] == "midi":
+                out.append((ev[0], "midi", ev[2], ev[3], bool(ev[4] and prev == ev[2])))
+                prev = ev[2]
+            else:
+                out.append(ev); prev = None
+        return out
+
+    def lattice(self, rng, scale):
+        out = []
+        for i in range(150 * scale):
+            fmt = rng.choice([0, 1, 1])
+            ntr = 1 if fmt == 0 else rng.choice([1, 2, 3])
+            div = rng.choice([1, 24, 96, 480, 960, 32767])
+            aligned = rng.random() < 0.5
+            tracks = []
+            for t in range(ntr):
+                evs = self.fix_running(smf_random_events(rng, rng.choice([0, 1, 4, 12]), tempo_rate=0 if (aligned and t > 0) else rng.choice([0, 0.2]),
+                                                         zero_nonmidi=aligned))
+                if aligned:
+                    # the tempo map first, at tick 0, in ascending order
+                    tm = sorted((e for e in evs if e[1] == "tempo"), key=lambda e: e[2])
+                    evs = [(0, "tempo", e[2]) for e in tm] + [e for e in evs if e[1] != "tempo"]
+                    evs = self.fix_running(evs)
+                tracks.append(evs)
+            py = smf_chunk(b"MThd", struct.pack(">HHH", fmt, ntr, div)) + b"".join(smf_track(rng, t) for t in tracks)
+            out.append(dict(kind="SMFspec", format=fmt, division=div,
+                            tracks="/".join(",".join(self.ev_str(e) for e in t) or "-" for t in tracks), _py=py))
+        return out
+
+
+# ======================================================================================
 # WAVE
 
 @register
